@@ -21,6 +21,10 @@ SeqsOfLen(A, n) == IF n = 0 THEN {<<>>} ELSE {Append(s, a) : s \in SeqsOfLen(A, 
 RtCases == \A n \in {0, 1, 15, 16, 17, 47, 48} : \A sl \in {0, 1, 8, 39, 40, 41, 48, 55, 56, 57, 63, 64, 65, 104, 105, 200} : \A form \in {"ss", "sb", "bs", "bb"} :
     Emit([fn |-> "roundtrip", s |-> <<>>, a |-> <<n, sl, form>>,
           out |-> [cbc_len |-> 16 + n + 16 - (n % 16), gcm_len |-> 16 + n + 16]])
+\* the text forms `openssl enc -a` produces: one line (-A), or lines of 64 characters each ended by a newline (the
+\* default; CR LF on some platforms).  A message assembled from the specification in any of them must decrypt.
+OpensslForms == \A n \in {0, 15, 31, 32, 33, 47, 48, 100, 400} : \A wrap \in {"oneline", "lf64", "crlf64", "lf76"} :
+    Emit([fn |-> "opensslform", s |-> <<>>, a |-> <<n, wrap>>, out |-> <<>>])
 \* every single-character corruption class of the encoded message
 TamperCases == \A mode \in {"cbc", "gcm"} : \A n \in {0, 5, 16, 33} : \A sl \in {9, 57, 64} :
     \A part \in {"magic", "salt", "body", "tail"} : \A pos \in {"first", "last"} :
@@ -60,6 +64,7 @@ StreamCases == \A body \in {0, 1, 2, 17} : \A pre \in SeqsOfLen(Sizes, 3) : \A r
 StreamBad == \A keep \in {0, 1, 8, 15} : \A rest \in {1, 1000} :
     Emit([fn |-> "streambad", s |-> <<>>, a |-> <<keep, rest>>, out |-> <<>>])
 ASSUME RtCases
+ASSUME OpensslForms
 ASSUME TamperCases
 ASSUME OtherKey
 ASSUME TruncCases
